@@ -125,11 +125,11 @@ fn plan(prop: &str) -> Plan {
         },
         "C15" => Plan {
             level: "fault_enumeration",
-            runs_quick: 60_000,
+            runs_quick: 45_000,
             runs_thorough: 1_500_000,
             builds_quick: &["default", "preserve_order", "perf"],
             builds_thorough: ALL_BUILDS,
-            rule: "One evaluation = one seeded (document, reader type) pair: a DocGen / toml-test document with an inferred reader type (some deliberately mismatching, some with Spanned or toml::Value leaves), or the text obtained by serializing a generated value with its mirrored type. For each of the seven document routes the reader peer is first run fault-free to count its visitor callbacks n; then a failure is injected at ENTRY and at EXIT of EVERY callback k = 0..n-1 (F-VIS, exhaustive in the fault dimension up to 160 callbacks), one execution per position, and every distinct error obtained is rendered into a sink that fails at EVERY write_str (F-SINK). Non-trivial = reader type + document tree have >= 3 nodes; distinct = distinct conversation shape of the whole evaluation (seam event sequences of all its executions, payloads erased), counted with a hash set. In 1/8 of the evaluations the peers are REAL derived types (workload R, sim/src/realfam.rs: seven families using flatten, untagged, internally and adjacently tagged enums, default, rename_all, skip_serializing_if, Box, toml::Table flattened, and HashMap fields whose iteration order is the environment's choice) driven through the same seams, faults and oracles.",
+            rule: "One evaluation = one seeded (document, reader type) pair: a DocGen / toml-test document with an inferred reader type (some deliberately mismatching, some with Spanned or toml::Value leaves), or the text obtained by serializing a generated value with its mirrored type. For each of the seven document routes the reader peer is first run fault-free to count its visitor callbacks n; then a failure is injected at ENTRY and at EXIT of EVERY callback k = 0..n-1 (F-VIS, exhaustive in the fault dimension up to 160 callbacks; for documents longer than 2 KiB with more than 48 callbacks the position is sampled instead: first 16, last 16, 16 evenly spaced — counted by probe positions_sampled_for_long_document), one execution per position, and every distinct error obtained is rendered into a sink that fails at EVERY write_str (F-SINK). Non-trivial = reader type + document tree have >= 3 nodes; distinct = distinct conversation shape of the whole evaluation (seam event sequences of all its executions, payloads erased), counted with a hash set. In 1/8 of the evaluations the peers are REAL derived types (workload R, sim/src/realfam.rs: seven families using flatten, untagged, internally and adjacently tagged enums, default, rename_all, skip_serializing_if, Box, toml::Table flattened, and HashMap fields whose iteration order is the environment's choice) driven through the same seams, faults and oracles.",
             real: &["toml_edit::de::* (ValueDeserializer, TableDeserializer/TableMapAccess, ArrayDeserializer, KeyDeserializer, TableEnumDeserializer, SpannedDeserializer, DatetimeDeserializer), toml_edit::de::Error / TomlError (span, keys, raw, Display)", "toml::de wrappers, impl Deserializer for toml::Value / toml::Table, toml::de::Error", "toml_edit parser (document + spans used as expected locations via Item::span()/Key::span())", "serde's primitive impls, toml_datetime / toml::Value Deserialize"],
             stub: &["reader peer R(T) + DynVal root adapter", "seam interposers: inject the failure, track the reader's own path / hint stack / key ordinal (never read back from the library)", "failing fmt::Write sink", "DocGen + type inference"],
             assumptions: &["only the second sentence of C15 is decided (errors raised while deserializing a valid document); errors for rejected texts are not", "expected locations are the library's own Item::span()/Key::span() at the reader-tracked path (their correctness is C14's check)", "an error whose message no longer contains the injected marker is not attributed to the fault: location clauses are skipped for it and it is counted (probe foreign_error)", "single-value deserializers (R7) are not part of this check", "exhaustive only in the fault position; documents and types are sampled"],
